@@ -235,6 +235,8 @@ def _build_cause(emitted_syms):
     codes = [x.code or '' for x in emitted_syms]
     if any(re.search(r'\bimport\s*\*', c) for c in codes):
         return 'import-star'
+    if any(c.rstrip(' \t').endswith('\\') for c in codes):
+        return 'trailing-backslash'
     if any(re.search(r'\\\r?\n', c) for c in codes):
         return 'backslash-continuation'
     if any(re.search(r'^\s*(return|yield|await|nonlocal)\b', c, re.M) for c in codes):
@@ -661,6 +663,7 @@ CORPUS = [
     'Y = (1 is 1) + canary_fn()', '`x = canary_fn() is 1`', 'Y = canary_fn() is 1', 'Y = "\\d" + canary_fn()', '`x = f() if 1 is 1 else 0`',    # a SyntaxWarning together with a call
     'Y = X\u2028Z = W', 'Y = X\u2029Z = W', 'Y = X[\uff11]', 'Y = X[\u0661]', '\u3000Y = X', 'Y = \u03b1 + X', '\u03b1 = 1', 'Y = X \u2212 1', 'Y = {\u03b1}',     # outside Latin-1: oracle only
     '```python\nx = 1\n```', '```py\n```',      # the info string becomes code
+    '```\n\\\n```', '```\nx = 1\n\\\n```', '```\nx = 1 \\\n```', '`x = 1 \\`', '```\nx = (1 +\\\n2)\n```',      # a trailing backslash: the embedded check joins it with its own `pass`
     'status = 1', 'Y = lags', 'Y = {check}', '`x = 1; from os import *`',                          # NEW: accepted but cannot be built / instantiated
     'Y = ' + '+'.join(['X'] * 3000), 'Y = ' + '-' * 6000 + 'X',                                   # RecursionError / MemoryError from compile(): ParserError since 74fa5fb (must still terminate within the watchdog)
     'Y = ' + '(' * 250 + 'X' + ')' * 250, 'Y = X[' + '1' * 5000 + ']',
@@ -701,7 +704,7 @@ def line_mutate(rng, s):
 def gen(rng, tier):
     cases = [{'k': 's', 's': s} for s in CORPUS]
     for fam, (n1, n2) in SCALE_SIZES.items():
-        m = 1 if tier == 'quick' else 2          # thorough: twice the size (four times the time on the quadratic families)
+        m = 2 if (tier != 'quick' and fam not in ('bracketed-lines', 'dotted-name')) else 1      # thorough: twice the size, except on the two super-linear families (minutes of CPU)
         cases.append({'k': 'scale', 'family': fam, 'n1': n1 * m, 'n2': n2 * m})
     # exhaustive part
     cases += [{'k': 'enum', 'len': L, 'prefix': ''} for L in (0, 1, 2)]
